@@ -32,12 +32,21 @@ def _arr(xs, dt='int64'):
 # bit pattern as an unsigned integer (float32 / float64); the same representation as in Model/SessionMergeTyped.v
 DTC = {'bool': 1, 'int8': 8, 'int16': 16, 'int32': 32, 'int64': 64, 'uint8': 108, 'uint16': 116, 'uint32': 132,
        'uint64': 164, 'float32': 232, 'float64': 264}
+for _n in (1, 2, 3, 8):
+    DTC['S%d' % _n] = 300 + _n       # fixed-width strings: the n bytes, NUL-padded, as a big-endian number (b'' = 0)
 DTN = {v: k for k, v in DTC.items()}
 _FBITS = {'float32': 'uint32', 'float64': 'uint64'}
 
 
+def _is_s(dt):
+    return dt[0] == 'S'
+
+
 def _tarr(xs, dt):
     """canonical integers -> ndarray of dtype dt"""
+    if _is_s(dt):
+        n = int(dt[1:])
+        return _np.asarray([int(v).to_bytes(n, 'big') for v in xs], dtype=dt)
     if dt in _FBITS:
         return _np.asarray(xs, dtype=_FBITS[dt]).view(dt)
     if dt == 'bool':
@@ -45,11 +54,19 @@ def _tarr(xs, dt):
     return _np.asarray(xs, dtype=dt)
 
 
+def _full(n, fill, dt):
+    """a destination array as the caller allocates it (np.full with a number would store its decimal text in an S array)"""
+    return _np.zeros(n, dtype=dt) if _is_s(dt) else _np.full(n, fill, dtype=dt)
+
+
 def _tcol(x):
     """ndarray / numeric field -> [dtype name, canonical integers]"""
     a = x.data[:] if isinstance(x, _fld.Field) else x
     a = _np.asarray(a)
     dt = str(a.dtype)
+    if a.dtype.kind == 'S':
+        n = a.dtype.itemsize
+        return ['S%d' % n, [int.from_bytes(bytes(v).ljust(n, b'\0'), 'big') for v in a]]
     if dt in _FBITS:
         return [dt, [int(v) for v in a.view(_FBITS[dt])]]
     return [dt, [int(v) for v in a]]
@@ -70,7 +87,7 @@ def _preserved(sdt, kdt, col):
     """a column of dtype sdt is stored unchanged in an array of dtype kdt (Proofs/SessionMergeTypedP.v: preserved)"""
     if sdt == kdt:
         return True
-    if sdt in _FBITS or kdt in _FBITS:
+    if sdt in _FBITS or kdt in _FBITS or _is_s(sdt) or _is_s(kdt):
         return False
     lo, hi = _dt_range(kdt)
     return all(lo <= v <= hi for v in col)
@@ -96,6 +113,11 @@ KMAPS = {
     'f64big': ('float64', lambda k: float(1 << 53) + 2.0 * k),
     'f32': ('float32', lambda k: 0.5 * k - 2.25),
 }
+# fixed-width string keys: every string of 1..3 bytes over {space, '0', 'a', 0xff} in bytewise order (a shorter string
+# sorts before its extensions; trailing spaces and bytes >= 0x80 are significant)
+_SKEYS = sorted(bytes(t) for n in (1, 2, 3) for t in itertools.product((0x20, 0x30, 0x61, 0xff), repeat=n))
+KMAPS['S3'] = ('S3', lambda k: _SKEYS[k])
+KMAPS['S8'] = ('S8', lambda k: b'id-' + _SKEYS[k])
 KMAP_MAXSYM = 60        # symbols above this only with the maps that have room
 KMAPS_WIDE = ['i32', 'i64', 'i64p53', 'i64lo', 'i64w32', 'f64', 'f64big']
 
@@ -114,6 +136,8 @@ def key_canon(km, xs):
     """canonical integers of the actual key values (for a payload that IS a key column)"""
     import struct
     kd, f = KMAPS[km]
+    if _is_s(kd):
+        return [int.from_bytes(f(k).ljust(int(kd[1:]), b'\0'), 'big') for k in xs], kd
     if kd == 'float64':
         return [struct.unpack('<Q', struct.pack('<d', f(k)))[0] for k in xs], kd
     if kd == 'float32':
@@ -156,9 +180,9 @@ def _nfield(xs, dt='int32', h5=False):
     if h5:
         df = _h5_frame()
         _H5['n'] += 1
-        f = df.create_numeric('f%d' % _H5['n'], dt)
+        f = df.create_fixed_string('f%d' % _H5['n'], int(dt[1:])) if _is_s(dt) else df.create_numeric('f%d' % _H5['n'], dt)
     else:
-        f = _fld.NumericMemField(_S, dt)
+        f = _fld.FixedStringMemField(_S, int(dt[1:])) if _is_s(dt) else _fld.NumericMemField(_S, dt)
     if xs is not None:
         f.data.write(xs if isinstance(xs, _np.ndarray) else _tarr(xs, dt))
     return f
@@ -377,7 +401,7 @@ def _run_oml(case, np, ops, S):
     srcs = tuple(_reg(case, 'srcs', k, (lambda k=k: _payload('n', case['srcs'][k], fa, h5, sdt[k]))) for k in range(n))
     sinks = None
     if form == 'as':
-        sinks = tuple(_reg(case, 'sinks', k, (lambda k=k: np.full(len(case['L']), case.get('fill', 0), dtype=kdt[k])))
+        sinks = tuple(_reg(case, 'sinks', k, (lambda k=k: _full(len(case['L']), case.get('fill', 0), kdt[k])))
                       for k in range(len(kdt)))
     elif form == 'fs':
         sinks = tuple(_reg(case, 'sinks', k, (lambda k=k: _nfield(None, kdt[k], h5))) for k in range(len(kdt)))
@@ -420,8 +444,8 @@ def _run_omi(case, np, ops, S):
     lsk = rsk = None
     if form == 'as':
         n = case['n']
-        lsk = tuple(np.full(n, case.get('fill', 0), dtype=d) for d in ldt)
-        rsk = tuple(np.full(n, case.get('fill', 0), dtype=d) for d in rdt)
+        lsk = tuple(_full(n, case.get('fill', 0), d) for d in ldt)
+        rsk = tuple(_full(n, case.get('fill', 0), d) for d in rdt)
     elif form == 'fs':
         lsk = tuple(_nfield(None, d, h5) for d in ldt)
         rsk = tuple(_nfield(None, d, h5) for d in rdt)
@@ -857,6 +881,7 @@ def features(case, model):
         if case.get('kdt') and case.get('kdt') != case.get('sdt'): f.append('sink-dtype-wider-than-source')
         allv = [v for c in case.get('srcs', []) + case.get('lsrcs', []) + case.get('rsrcs', []) for v in c]
         if any(abs(v) > (1 << 53) for v in allv): f.append('payload-value-beyond-2^53')
+        if any(_is_s(d) for d in dts): f.append('fixed-width-string-payload')
     if case.get('km'): f.append('keymap:' + case['km'])
     if case.get('grp'): f.append('h5py-group-arguments')
     if case.get('lst'): f.append('payloads-and-sinks-as-lists')
@@ -1162,7 +1187,7 @@ def gen(tier, rng):
 
 
 # ----------------------------------------------------------------------------- generators: element types, histories, aliasing
-DTYPES = ['int8', 'int16', 'int32', 'int64', 'uint8', 'uint16', 'uint32', 'uint64', 'bool', 'float32', 'float64']
+DTYPES = ['int8', 'int16', 'int32', 'int64', 'uint8', 'uint16', 'uint32', 'uint64', 'bool', 'float32', 'float64', 'S3', 'S1', 'S8']
 # (source dtype, wider sink dtype): the sink can hold every value of the source
 WIDEN = [('int8', 'int16'), ('int8', 'int64'), ('int16', 'int32'), ('int32', 'int64'), ('uint8', 'uint16'), ('uint8', 'int16'),
          ('uint16', 'int32'), ('uint32', 'int64'), ('uint32', 'uint64'), ('bool', 'int8'), ('bool', 'uint8'), ('bool', 'int64'),
@@ -1186,7 +1211,16 @@ def _pool(dt):
     """values of a dtype that a wrong intermediate type would damage: extremes, beyond 2^31 / 2^53, fractions, NaN, -0.0"""
     if dt in _POOLS:
         return _POOLS[dt]
-    if dt == 'bool':
+    if _is_s(dt):
+        n = int(dt[1:])
+        raw = [b'x', b'yy', b'zzz', b'w w', b' ', b'a ', b'\xff\xfe\xfd', b'0', 'é'.encode(), b'a\x00b', b'A\x01', b'abcdefgh',
+               b'12345678', b'  pad  ', b'\xff' * 8, b'Zo\xc3\xab', b'   ']
+        p = []
+        for b in raw:
+            v = int.from_bytes(b[:n].rstrip(b'\0').ljust(n, b'\0'), 'big')
+            if v and v not in p:
+                p.append(v)
+    elif dt == 'bool':
         p = [1, 1, 0, 1, 0, 1, 1]
     elif dt == 'float64':
         p = [_f64(x) for x in (70.5, -81.25, 0.1, 1.7976931348623157e308, 5e-324, -0.0, float('inf'), 2.0 ** 53 + 2, 1e-7,
@@ -1701,13 +1735,14 @@ RULE = ('exhaustive over order-types: every pair of non-decreasing key sequences
         'cases with runs of equal left keys planted at chunk ends. Memory-backed fields (no HDF5 file per case). '
         'merge_inner is compared up to one consistent permutation of the output rows (pandas does not promise more). '
         'Non-trivial = at least one matched or unmatched key / missing key / invalid index is present. '
-        'ELEMENT TYPES: every numeric dtype (int8..int64, uint8..uint64, bool, float32, float64; values at the extremes of '
+        'ELEMENT TYPES: every numeric dtype and fixed-width strings (int8..int64, uint8..uint64, bool, float32, float64, S1, S3, S8; values at the extremes of '
         'the dtype, beyond 2^31 / 2^53, fractions, NaN, -0.0, +-inf, compared by bit pattern together with the dtype of the '
         'returned column) alone in each of the 11 argument forms, every ordered PAIR of dtypes in one call (streamed at chunk '
         'sizes 1, 2 and the default, two in-memory forms, HDF5-backed), triples (thorough: all 1331), 4..8 payloads, sinks '
         'wider than their source, for ordered_merge_left/right; every ordered dtype pair for ordered_merge_inner; every dtype '
         'for merge_left/right/inner and join. KEY COLUMNS of every integer/float dtype and at the ends of their range '
-        '(16 strictly increasing key maps incl. neighbours beyond 2^53, values equal modulo 2^32, the uint64 sign bit). '
+        '(18 strictly increasing key maps incl. neighbours beyond 2^53, values equal modulo 2^32, the uint64 sign bit, fixed-width '
+        'string keys with trailing spaces and bytes >= 0x80). '
         'HISTORIES: several calls on one Session in one case — every ordered pair of payload dtypes in two successive '
         'streamed calls, every ordered pair of 13 call templates (all entry points), the same call twice with fresh or '
         'shared argument objects, chained merges where the sink and the map field of one call are payloads of the next, '
